@@ -532,7 +532,7 @@ fn path_for(fmt: u8, n: &NameSel) -> (std::path::PathBuf, u8) {
 /// (xb/tnd/adf/idf/icy files contain font, palette and chunk bytes; the native format keeps its SAUCE in a chunk the ANSI loader cannot see.)
 fn name_sel(fmt: u8) -> BoxedStrategy<NameSel> {
     let own = prop_oneof![8 => Just(0u8), 2 => Just(1u8), 2 => Just(2u8), 2 => Just(3u8), 1 => Just(8u8), 1 => Just(9u8)];
-    let kind = if matches!(fmt, ANS | ASC | PCB | AVT | BIN) { prop_oneof![5 => own, 2 => Just(4u8), 1 => Just(7u8), 1 => Just(5u8), 1 => Just(6u8)].boxed() } else { own.boxed() };
+    let kind = if matches!(fmt, ANS | ASC | PCB | AVT | BIN) { prop_oneof![20 => own, 8 => Just(4u8), 4 => Just(7u8), 1 => Just(5u8), 1 => Just(6u8)].boxed() } else { own.boxed() };
     (kind, 0u8..8).prop_map(|(kind, k)| NameSel { kind, k: if matches!(kind, 2 | 3 | 4) { k } else { 0 } }).boxed()
 }
 
@@ -1041,6 +1041,10 @@ fn check_writer_split(c: &WCase) -> Verdict {
 
 fn check_meta_once(c: &WCase) -> Verdict {
     let fmt = ext(c.fmt);
+    let (path, loader) = path_for(c.fmt, &c.name);
+    if let Some(why) = unusable_name(&path) {
+        return Verdict::discard(why);
+    }
     let buf = match build(c, true) {
         Ok(b) => b,
         Err(e) => return Verdict::discard(e),
@@ -1055,10 +1059,6 @@ fn check_meta_once(c: &WCase) -> Verdict {
             return Verdict::fail(format!("save.error|fmt={fmt}"), format!("writer refused a document of its own domain: {e}"));
         }
     };
-    let (path, loader) = path_for(c.fmt, &c.name);
-    if let Some(why) = unusable_name(&path) {
-        return Verdict::discard(why);
-    }
     let loaded = match Buffer::from_bytes(&path, false, &bytes) {
         Ok(b) => b,
         Err(e) => return Verdict::fail(format!("load.error|fmt={fmt}"), format!("file written with SAUCE does not load as {path:?}: {e}")),
@@ -1161,6 +1161,10 @@ fn check_extract_len(file: &[u8], n_comments: usize, want: usize) -> Result<(), 
 fn check_writer_split_once(c: &WCase) -> Verdict {
     let fmt = ext(c.fmt);
     let m = &c.meta;
+    let (name, loader) = path_for(c.fmt, &c.name);
+    if let Some(why) = unusable_name(&name) {
+        return Verdict::discard(why);
+    }
     let buf = match build(c, true) {
         Ok(b) => b,
         Err(e) => return Verdict::discard(e),
@@ -1261,11 +1265,10 @@ fn check_writer_split_once(c: &WCase) -> Verdict {
     }
     // (d) differential: record's width / ice / font equal to the loader's defaults => same picture as the content alone
     let default_ice = if matches!(c.fmt, ADF | IDF) { m.ice } else { !m.ice };
-    let defaults = m.width as i32 == default_width(c.fmt) && default_ice && m.font.is_empty() && c.doc.font_shape == 0;
+    let defaults = m.width as i32 == default_width(loader) && default_ice && m.font.is_empty() && c.doc.font_shape == 0;
     if !defaults {
         return Verdict::pass(meta_nontrivial(&m.title, &m.author, &m.group, &m.comments), format!("{}|layout-only", wclass(c)));
     }
-    let name = file_name(c.fmt);
     let a = match Buffer::from_bytes(&name, false, &with) {
         Ok(b) => b,
         Err(e) => return Verdict::fail(format!("load.error|fmt={fmt}"), format!("file written with SAUCE does not load: {e}")),
@@ -1324,6 +1327,14 @@ fn without_free_field(c: &RCase, i: usize) -> RCase {
 /// A failure that disappears when one free field is put back to the document's value is keyed with that field.
 fn check_reader_split(c: &RCase) -> Verdict {
     let v = check_reader_split_once(c);
+    if let Verdict::Fail { key, msg } = &v {
+        if c.name != NameSel::default() {
+            let d = RCase { name: NameSel::default(), ..c.clone() };
+            if !matches!(check_reader_split_once(&d), Verdict::Fail { key: k, .. } if k == *key) {
+                return Verdict::fail(format!("{key}|file_name"), format!("{msg} [does not fail when loaded as {:?}]", file_name(c.fmt)));
+            }
+        }
+    }
     if c.free == Free::default() {
         return v;
     }
@@ -1344,7 +1355,11 @@ fn check_reader_split_once(c: &RCase) -> Verdict {
         Ok(b) => b,
         Err(e) => return Verdict::discard(format!("content writer: {e}")),
     };
-    let plain = match load_plain(c.fmt, &content) {
+    let (path, loader) = path_for(c.fmt, &c.name);
+    if let Some(why) = unusable_name(&path) {
+        return Verdict::discard(why);
+    }
+    let plain = match load_plain(&path, loader, &content) {
         Ok(b) => b,
         Err(e) => return Verdict::discard(format!("content alone does not load: {e}")),
     };
@@ -1355,7 +1370,8 @@ fn check_reader_split_once(c: &RCase) -> Verdict {
         2 => 25,
         _ => c.lines_val,
     };
-    let dw = default_width(c.fmt) as u16;
+    // the defaults that count are those of the loader the file name selects
+    let dw = default_width(loader) as u16;
     let w = match c.width_sel {
         0 => dw,
         1 => 0,
@@ -1447,11 +1463,11 @@ fn check_reader_split_once(c: &RCase) -> Verdict {
         return v;
     }
     let lines_class = ["lines=0", "lines=actual", "lines=25", "lines=other"][c.lines_sel.min(3) as usize];
-    let loaded = match Buffer::from_bytes(&file_name(c.fmt), false, &file) {
+    let loaded = match Buffer::from_bytes(&path, false, &file) {
         Ok(b) => b,
         Err(e) => return Verdict::fail(format!("differential.load_error|fmt={fmt}"), format!("content alone loads, content+EOF+SAUCE does not: {e}")),
     };
-    let describe = || format!("record DataType={data_type} FileType={file_type} TInfo={tinfo:?} TFlags={tflags:#04x} FileSize={file_size} (content {len} bytes) Date=\"{}\" ({lines_class}), {n} comment lines, content tail kind {}", escape(&date), c.tail);
+    let describe = || format!("record DataType={data_type} FileType={file_type} TInfo={tinfo:?} TFlags={tflags:#04x} FileSize={file_size} (content {len} bytes) Date=\"{}\" ({lines_class}), {n} comment lines, content tail kind {}, loaded as {path:?}", escape(&date), c.tail);
     if let Some((size, d)) = picture_diff(&picture(&loaded), &plain_pic) {
         return Verdict::fail(format!("differential.{}|fmt={fmt}", if size { "size" } else { "cells" }), format!("{}: {d}", describe()));
     }
@@ -1505,23 +1521,32 @@ struct DCase {
 
 const D_CONTENTS: [&[u8]; 3] = [b"", b"A", b"AB"];
 
+const D_NAMES: [u8; 3] = [0, 1, 4];
+
 fn dcase(i: u64) -> DCase {
+    let name = NameSel { kind: D_NAMES[(i / 2048) as usize % 3], k: (i % 7) as u8 };
+    let name = if matches!(name.kind, 2 | 3 | 4) { name } else { NameSel { k: 0, ..name } };
+    DCase { name, ..dcase0(i % 2048) }
+}
+
+fn dcase0(i: u64) -> DCase {
     // 0..1536: with EOF, n x content x {ans,bin}; 1536..2048: no EOF, no content (nothing but SAUCE), n x {ans,bin}
     if i < 1536 {
         let n = (i % 256) as u8;
         let k = ((i / 256) % 3) as usize;
         let fmt = if i / 768 == 0 { ANS } else { BIN };
-        DCase { fmt, comments: n, content: Bytes(D_CONTENTS[k].to_vec()), eof: true }
+        DCase { fmt, comments: n, content: Bytes(D_CONTENTS[k].to_vec()), eof: true, name: NameSel::default() }
     } else {
         let j = i - 1536;
-        DCase { fmt: if j / 256 == 0 { ANS } else { BIN }, comments: (j % 256) as u8, content: Bytes(Vec::new()), eof: false }
+        DCase { fmt: if j / 256 == 0 { ANS } else { BIN }, comments: (j % 256) as u8, content: Bytes(Vec::new()), eof: false, name: NameSel::default() }
     }
 }
 
 fn check_degenerate(c: &DCase) -> Verdict {
     let fmt = ext(c.fmt);
     let n = c.comments as usize;
-    let dw = default_width(c.fmt) as u16;
+    let (name, loader) = path_for(c.fmt, &c.name);
+    let dw = default_width(loader) as u16;
     let rec = RefRecord {
         title: b"t".to_vec(),
         author: vec![],
@@ -1545,7 +1570,6 @@ fn check_degenerate(c: &DCase) -> Verdict {
             if s.sauce_header_len != want {
                 let key = if c.eof { header_len_key(n) } else { "split.header_len|no_eof_nothing_but_sauce".to_string() };
                 // what a caller of the loader sees (the engine's panic hook is silent; the panic is reported through this message only)
-                let name = file_name(c.fmt);
                 let outcome = match std::panic::catch_unwind(std::panic::AssertUnwindSafe(|| Buffer::from_bytes(&name, false, &file).map(|b| (b.get_width(), b.get_height())))) {
                     Ok(Ok((w, h))) => format!("Buffer::from_bytes loads a {w}x{h} picture"),
                     Ok(Err(e)) => format!("Buffer::from_bytes fails: {e}"),
@@ -1557,7 +1581,6 @@ fn check_degenerate(c: &DCase) -> Verdict {
         Ok(None) => return Verdict::fail("split.not_recognised", format!("no SAUCE found in a file of {} bytes ending in a record", file.len())),
         Err(e) => return Verdict::fail("split.extract_error", format!("{n} comment lines, {} content bytes: {e}", c.content.len())),
     }
-    let name = file_name(c.fmt);
     let plain = match Buffer::from_bytes(&name, false, &c.content) {
         Ok(b) => b,
         Err(e) => return Verdict::discard(format!("content alone does not load: {e}")),
@@ -1608,11 +1631,13 @@ fn main() {
          any TInfo2, any LS/AR incl. the invalid value 3); in half of the records the fields that carry nothing the property lists are arbitrary: FileSize {content length, 0, 1, length-1, length+1, length+2, 2^32-1, random}, \
          Date {valid, blanks, zeroes, impossible, NULs, random bytes}, TInfo3/4, reserved TFlags bits (whole TFlags where the variant has none), TInfoS behind its terminator (whole TInfoS where the variant has no FontName), \
          DataType/FileType any pair (width written where that variant keeps it; bin keeps BinaryText); loaded title/author/group/comment lines (and iCE/LS/AR for ASCII, ANSi, BinaryText records) must be the record's. size_grid: exhaustive widths {1,2,40,79,80,81,132,160,255,256,320,511,512,640,800,999,1000} x the grid heights x {ans,asc,pcb,avt,tnd,bin} through the metadata round trip. degenerate: all comment counts 0..=255 x content of 0,1,2 bytes x {ans,bin}, and the files that are nothing but [COMNT]+record without EOF. \
+         Every part loads under a file name drawn from {c11.ext | C11.EXT | c11.eXt | alternative extension (ice, diz) | unregistered extension nfo txt mem x sauce an ansi | c11 | .ext | pic.ext.bak | pic.bak.ext | dir.xb/pic.ext}. \
          Non-trivial: >= 1 comment line, or a title/author/group/comment at its maximal length, or (reader_split) marker-like content tail; degenerate: >= 1 comment or empty content. Distinct by case hash.",
     );
     eng.assume("the SAUCE rev. 5 document in /repo/doc is the reference for record layout, trailer arithmetic and for what each DataType/FileType variant carries (ANSiFlags and FontName: ASCII, ANSi, ANSiMation, BinaryText; neither: PCBoard, Avatar, TundraDraw, XBin)");
     eng.assume("BinaryText carries only even widths up to 510 (width/2 in one byte): odd widths are expected back rounded down, a refusal to save wider documents is accepted");
     eng.assume("a font name longer than the 22 byte FontName field is expected back cut to 22 characters; for hand-built records only title/author/group/comment lines and the flags of ASCII, ANSi and BinaryText records are asserted, nothing about variants the crate's writers never produce");
+    eng.assume("the file name selects the loader: every spelling of a registered or alternative extension (lower, UPPER, MiXed, pic.bak.ext, dir.xb/pic.ext) the format's own, anything else (unregistered extension, pic.ext.bak, no extension, .ext) the ANSI loader with its defaults; both loads of the differential clause use the same name; names that send a file to the ANSI loader are used for ans/asc/pcb/avt/bin files only; a name without extension is discarded while Buffer::from_bytes panics on it before reading any data (C02's subject)");
     eng.assume("font names are compared without trailing blanks; Date and FileSize are not part of the property and are not asserted");
     eng.assume("'picture' = buffer size and, per cell, character, colour indices, attribute bits, font page and the palette RGB of both colours");
     eng.assume("content that by itself ends in a well-formed record is ambiguous for Buffer::from_bytes: its reference picture is taken from the format loader called without SAUCE");
@@ -1620,7 +1645,7 @@ fn main() {
     eng.generated_with_class(PartCfg::new("meta_roundtrip", 200_000, 3_600_000), || wcases(false), check_meta, |c: &WCase| format!("fmt={}", ext(c.fmt)));
     eng.generated_with_class(PartCfg::new("writer_split", 70_000, 1_200_000), || wcases(true), check_writer_split, |c: &WCase| format!("fmt={}", ext(c.fmt)));
     eng.generated_with_class(PartCfg::new("reader_split", 160_000, 2_400_000), rcases, check_reader_split, |c: &RCase| format!("fmt={}", ext(c.fmt)));
-    eng.enumerated(PartCfg::new("degenerate", 0, 0).exhaustive(true), 2048, dcase, check_degenerate);
+    eng.enumerated(PartCfg::new("degenerate", 0, 0).exhaustive(true), 3 * 2048, dcase, check_degenerate);
     eng.enumerated(PartCfg::new("size_grid", 0, 0).exhaustive(true), (GRID_FMTS.len() * GRID_W.len() * GRID_H.len()) as u64, grid_case, check_meta);
     eng.run();
 }
